@@ -835,12 +835,11 @@ func genTreeCase(t *rapid.T) TreeCase {
 	if dense {
 		keyGen = rapid.OneOf(genDenseKey(), genDenseKey(), genSparseKey())
 	}
-	n := rapid.IntRange(1, 40).Draw(t, "n")
 	weights := []int{opBegin, opInsert, opInsert, opInsert, opModify, opDelete, opDelete, opRead, opRead, opClone, opIter, opCommit, opCommit, opAbandon, opWatch, opWatch, opInsertWatch, opOneShot}
 	if dense {
 		weights = append(weights, opInsertRange, opInsertRange, opInsertRange, opDeleteRange, opDeleteRange)
 	}
-	for i := 0; i < n; i++ {
+	genOp := rapid.Custom(func(t *rapid.T) Op {
 		o := Op{K: rapid.SampledFrom(weights).Draw(t, "k")}
 		switch o.K {
 		case opBegin:
@@ -872,8 +871,9 @@ func genTreeCase(t *rapid.T) TreeCase {
 			o.Val = rapid.IntRange(0, 99).Draw(t, "val")
 			o.B = rapid.IntRange(0, 2).Draw(t, "kind")
 		}
-		c.Ops = append(c.Ops, o)
-	}
+		return o
+	})
+	c.Ops = vk.Ops(t, genOp, 25, "ops")
 	return c
 }
 
